@@ -5,6 +5,7 @@ import (
 
 	"verifh/core"
 	"verifh/envfs"
+	"verifh/ref/rpar1"
 	"verifh/scen"
 )
 
@@ -14,7 +15,7 @@ type p1Case struct {
 	Cfg     scen.P1Config `json:"cfg"`
 	FileDmg []int         `json:"fdmg"` // per file: 0 ok, 1 deleted, 2 last byte changed, 3 truncated by one, 4 emptied, 5 garbage of same length
 	VolDel  []int         `json:"voldel,omitempty"` // volumes (1-based) deleted
-	VolDmg  []int         `json:"voldmg,omitempty"` // per volume: 0 ok, 1 deleted, 2 one byte corrupted, 3 replaced by a foreign set's volume, 4 truncated
+	VolDmg  []int         `json:"voldmg,omitempty"` // per volume: 0 ok, 1 deleted, 2 one byte corrupted, 3 replaced by a foreign set's volume, 4 truncated, 5 valid hashes but wrong parity data
 	DC      bool          `json:"dc,omitempty"`
 	Extra   []string      `json:"extra,omitempty"`
 }
@@ -68,6 +69,19 @@ func applyP1(s *scen.P1Set, c *p1Case, seed int64) *envfs.FS {
 			}
 		case 4:
 			fs.Put(p, b[:len(b)-1])
+		case 5:
+			// a volume with valid hashes (re-written by the reference writer) whose parity data is wrong,
+			// at the last byte and, for big shards, beyond the first 16 KiB only
+			if vol, err := rpar1.Parse(b); err == nil && len(vol.Data) > 0 {
+				nd := append([]byte{}, vol.Data...)
+				nd[len(nd)-1] ^= 0x11
+				if len(nd) > 17000 {
+					nd[17000] ^= 0x22
+				} else {
+					nd[0] ^= 0x44
+				}
+				fs.Put(p, rpar1.Write(vol.Number, vol.Entries, nd))
+			}
 		}
 	}
 	for i, e := range c.Extra {
